@@ -70,6 +70,10 @@ func runC05(r *core.Run) {
 		}
 	}
 	nbhdSub(r, "nbhd-spec/all+attr+autoid", core.MustCfg("all+attr+autoid"), func(s *core.Sub, cv *core.Conv, w []byte) { c05Case(s, cv, w) })
+	for _, cn := range []string{"gfm", "all+attr+autoid"} {
+		docsSub(r, "tables/"+cn, fmt.Sprintf("two-column tables with every ordered pair of cell contents from %q, every alignment and placement, under %s: every node of the tree validated (the table transformers split and re-link text nodes)", c17Contents, cn),
+			core.MustCfg(cn), TableDocs(), func(s *core.Sub, cv *core.Conv, w []byte) { c05Case(s, cv, w) })
+	}
 	// footnote documents built from the C16 menu (references and definitions of three labels in every position): the
 	// footnote transformer re-orders and removes nodes, which is where tree links can go stale
 	{
